@@ -211,22 +211,23 @@ theorem a_of (c : C) (ih : IH c) (hl : Legal c) : A c := by
 
 theorem b_of (c : C) (ih : IH c) (hl : Legal c) (ha : A c) : B c := by
   intro h1 f rest hf
-  cases c with
-  | app c' a =>
-    simp only [Legal] at hl
-    simp only [size] at hf
-    obtain ⟨g', hg', e⟩ := (ih c' (by simp [size]; omega) hl.1).b hl.2.2.1 f (toks a ++ rest) (by omega)
-    obtain ⟨g, rfl⟩ : ∃ g, g' = g + 1 := ⟨g' - 1, by have := size_pos a; omega⟩
-    refine ⟨g, by simp only [size]; omega, ?_⟩
-    simp only [toks, List.append_assoc, e]
-    apply r_args_step
-    · exact startsAtomic_toks a rest hl.2.1 (by omega)
-    · exact (ih a (by simp [size]; omega) hl.2.1).a hl.2.2.2 g rest (by omega)
-  | comma | binop | lam | ite | letIn => simp [lvl] at h1
-  | ident | int | str | unit | paren =>
+  by_cases h0 : lvl c = 0
+  · have := size_pos c
     obtain ⟨f, rfl⟩ : ∃ f', f = f' + 1 := ⟨f - 1, by omega⟩
-    refine ⟨f, by have := size_pos ‹C›; first | omega | (simp [size]; omega), ?_⟩
-    exact r_app _ _ _ _ (ha (by simp [lvl]) f rest (by omega))
+    exact ⟨f, by omega, r_app _ _ _ _ (ha h0 f rest (by omega))⟩
+  · cases c with
+    | app c' a =>
+      simp only [Legal] at hl
+      simp only [size] at hf
+      obtain ⟨g', hg', e⟩ := (ih c' (by simp [size]; omega) hl.1).b hl.2.2.1 f (toks a ++ rest) (by omega)
+      obtain ⟨g, rfl⟩ : ∃ g, g' = g + 1 := ⟨g' - 1, by have := size_pos a; omega⟩
+      refine ⟨g, by simp only [size]; omega, ?_⟩
+      simp only [toks, List.append_assoc, e]
+      apply r_args_step
+      · exact startsAtomic_toks a rest hl.2.1 (by omega)
+      · exact (ih a (by simp [size]; omega) hl.2.1).a hl.2.2.2 g rest (by omega)
+    | comma | binop | lam | ite | letIn => simp [lvl] at h1
+    | ident | int | str | unit | paren => simp [lvl] at h0
 
 theorem c1_of (c : C) (hb : B c) : C1 c := by
   intro h1 f rest hf hs
@@ -234,5 +235,128 @@ theorem c1_of (c : C) (hb : B c) : C1 c := by
   obtain ⟨g, rfl⟩ : ∃ g', g = g' + 1 := ⟨g - 1, by have := size_pos c; omega⟩
   rw [e]
   exact r_args_stop _ _ _ hs
+
+theorem c2_of (c : C) (ih : IH c) (hl : Legal c) (hc1 : C1 c) : C2 c := by
+  intro h2 f rest hf hs hn
+  have := size_pos c
+  obtain ⟨f, rfl⟩ : ∃ f', f = f' + 2 := ⟨f - 2, by omega⟩
+  by_cases h1 : lvl c ≤ 1
+  · exact r_infix_app (f + 1) _ c rest (startsAtomic_toks c rest hl h1)
+      (hc1 h1 (f + 1) rest (by omega) hs) hn
+  · cases c with
+    | binop l o os r =>
+      simp only [Legal] at hl
+      simp only [size] at hf
+      simp only [toks, List.append_assoc, List.cons_append]
+      exact r_infix_op (f + 1) _ l o os (toks r ++ rest) r rest
+        (startsAtomic_toks l _ hl.1 hl.2.2.1)
+        ((ih l (by simp [size]; omega) hl.1).c1 hl.2.2.1 (f + 1) _ (by omega) (by simp [startsAtomic]))
+        ((ih r (by simp [size]; omega) hl.2.1).c2 hl.2.2.2 (f + 1) rest (by omega) hs hn)
+    | lam bs args ar body =>
+      simp only [Legal] at hl
+      simp only [size] at hf
+      simp only [toks, List.append_assoc, List.cons_append, List.nil_append]
+      cases args with
+      | nil => exact absurd rfl hl.2.1
+      | cons a as =>
+        exact r_lam (f + 1) bs _ a as ar _ body rest
+          (takeArgs_argToks (a :: as) _ (by simp [noIdent]))
+          (r_block f _ _ body dummy rest
+            ((ih body (by simp [size]) hl.1).c3 hl.2.2 f _ (by omega) (by simp [startsAtomic])
+              (by simp [noOp])))
+    | ite | letIn | comma => simp [lvl] at h2
+    | ident | int | str | unit | paren | app => simp [lvl] at h1
+
+theorem c3_of (c : C) (ih : IH c) (hl : Legal c) (hc2 : C2 c) : C3 c := by
+  intro h3 f rest hf hs hn
+  have := size_pos c
+  obtain ⟨f, rfl⟩ : ∃ f', f = f' + 2 := ⟨f - 2, by omega⟩
+  by_cases h2 : lvl c ≤ 2
+  · have e := hc2 h2 (f + 1) rest (by omega) hs hn
+    by_cases h1 : lvl c ≤ 1
+    · rw [r_expr_atom (f + 1) _ (startsAtomic_toks c rest hl h1)]; exact e
+    · cases c with
+      | binop l o os r =>
+        simp only [Legal] at hl
+        simp only [toks, List.append_assoc, List.cons_append] at e ⊢
+        rw [r_expr_atom (f + 1) _ (startsAtomic_toks l _ hl.1 hl.2.2.1)]; exact e
+      | lam bs args ar body =>
+        simp only [toks, List.append_assoc, List.cons_append] at e ⊢
+        rw [r_expr_lam]; exact e
+      | ite | letIn | comma => simp [lvl] at h2
+      | ident | int | str | unit | paren | app => simp [lvl] at h1
+  · cases c with
+    | ite i c t a e b =>
+      simp only [Legal] at hl
+      simp only [size] at hf
+      obtain ⟨lc, la, lb, vc, va, vb, _⟩ := hl
+      have hc := (ih c (by simp [size]; omega) lc).c3 vc
+      have ha := (ih a (by simp [size]; omega) la).c3 va
+      have hb := (ih b (by simp [size]; omega) lb).c3 vb
+      by_cases hi : isIte b = true
+      · simp only [toks, hi, ↓reduceIte, List.append_assoc, List.cons_append]
+        exact r_if (f + 1) i _ c t _ a e _ b rest
+          (hc (f + 1) _ (by omega) (by simp [startsAtomic]) (by simp [noOp]))
+          (r_block f _ _ a dummy _ (ha f _ (by omega) (by simp [startsAtomic]) (by simp [noOp])))
+          (hb (f + 1) rest (by omega) hs hn)
+      · have hi' : isIte b = false := by simpa using hi
+        simp only [toks, hi', Bool.false_eq_true, ↓reduceIte, List.append_assoc, List.cons_append,
+          List.nil_append]
+        exact r_if (f + 1) i _ c t _ a e _ b rest
+          (hc (f + 1) _ (by omega) (by simp [startsAtomic]) (by simp [noOp]))
+          (r_block f _ _ a dummy _ (ha f _ (by omega) (by simp [startsAtomic]) (by simp [noOp])))
+          (r_block f _ _ b dummy rest (hb f (⟨.cb, dummy⟩ :: rest) (by omega) (by simp [startsAtomic]) (by simp [noOp])))
+    | letIn l x args q rhs n body =>
+      obtain ⟨x, xs⟩ := x
+      simp only [Legal] at hl
+      simp only [size] at hf
+      obtain ⟨lr, lb, vr, vb⟩ := hl
+      have hr := (ih rhs (by simp [size]; omega) lr).c3 vr
+      have hb := (ih body (by simp [size]; omega) lb).c3 vb
+      simp only [toks, List.append_assoc, List.cons_append, List.nil_append]
+      exact r_let (f + 1) l x xs _ args q _ rhs n _ body rest
+        (takeArgs_argToks args _ (by simp [noIdent]))
+        (r_block f _ _ rhs dummy _ (hr f _ (by omega) (by simp [startsAtomic]) (by simp [noOp])))
+        (r_block f _ _ body dummy _ (hb f _ (by omega) (by simp [startsAtomic]) (by simp [noOp])))
+    | comma => simp [lvl] at h3
+    | ident | int | str | unit | paren | app | binop | lam => simp [lvl] at h2
+
+theorem c4_of (c : C) (ih : IH c) (hl : Legal c) (hc3 : C3 c) : C4 c := by
+  intro f rest hf hs hn hc
+  have := size_pos c
+  obtain ⟨f, rfl⟩ : ∃ f', f = f' + 1 := ⟨f - 1, by omega⟩
+  by_cases h3 : lvl c ≤ 3
+  · exact r_body_one f _ c rest (hc3 h3 f rest (by omega) hs hn) hc
+  · cases c with
+    | comma a cs b =>
+      simp only [Legal] at hl
+      simp only [size] at hf
+      simp only [toks, List.append_assoc, List.cons_append]
+      exact r_body_comma f _ a cs _ b rest
+        ((ih a (by simp [size]; omega) hl.1).c3 hl.2.2 f _ (by omega) (by simp [startsAtomic])
+          (by simp [noOp]))
+        ((ih b (by simp [size]; omega) hl.2.1).c4 f rest (by omega) hs hn hc)
+    | ident | int | str | unit | paren | app | binop | lam | ite | letIn => simp [lvl] at h3
+
+theorem all_of (n : Nat) : ∀ c, size c ≤ n → Legal c → All c := by
+  induction n with
+  | zero => intro c h; have := size_pos c; omega
+  | succ n ihn =>
+    intro c h hl
+    have ih : IH c := fun c' h' hl' => ihn c' (by omega) hl'
+    have a := a_of c ih hl
+    have b := b_of c ih hl a
+    have c1 := c1_of c b
+    have c2 := c2_of c ih hl c1
+    have c3 := c3_of c ih hl c2
+    exact ⟨a, b, c1, c2, c3, c4_of c ih hl c3⟩
+
+/-- The grammar model parses the printed token stream of every legal tree back to that tree. -/
+theorem parse_print (c : C) (hl : Legal c) (h3 : lvl c ≤ 3) (fuel : Nat)
+    (hf : 10 * size c + 6 ≤ fuel) : parseTop fuel (toksTop c) = some c := by
+  obtain ⟨f, rfl⟩ : ∃ f', fuel = f' + 1 := ⟨fuel - 1, by omega⟩
+  have e := (all_of (size c) c (Nat.le_refl _) hl).c3 h3 f [⟨.cb, dummy⟩] (by omega)
+    (by simp [startsAtomic]) (by simp [noOp])
+  simp only [parseTop, toksTop, r_block f dummy _ c dummy [] e]
 
 end GluonModel.ExprGrammar.Proofs
